@@ -68,7 +68,8 @@ pub struct Script {
     pub rounds: usize,
     /// [port][segment] -> ops
     pub ports: Vec<Vec<Vec<Op>>>,
-    pub observer: Vec<Get>,
+    /// [burst] -> getters; burst r is released when segment r starts
+    pub observer: Vec<Vec<Get>>,
     pub setter: Vec<Set>,
     /// highest local quality number that can ever be installed
     pub max_local_j: u16,
@@ -137,13 +138,17 @@ impl Script {
             }
             ports.push(segs);
         }
-        let observer = (0..6 + r.below(7))
-            .map(|_| match r.below(10) {
-                0..=3 => Get::Parent,
-                4..=6 => Get::TimeProperties,
-                7 => Get::Current,
-                8 => Get::PathTrace,
-                _ => Get::Default,
+        let observer = (0..=rounds)
+            .map(|_| {
+                (0..2 + r.below(4))
+                    .map(|_| match r.below(10) {
+                        0..=3 => Get::Parent,
+                        4..=6 => Get::TimeProperties,
+                        7 => Get::Current,
+                        8 => Get::PathTrace,
+                        _ => Get::Default,
+                    })
+                    .collect()
             })
             .collect();
         let mut j = 0u16;
@@ -176,14 +181,11 @@ impl Script {
             "p2p": self.p2p,
             "bmca_rounds": self.rounds,
             "port_scripts": self.ports.iter().map(|segs| segs.iter().map(|s| s.iter().map(op).collect::<Vec<_>>()).collect::<Vec<_>>()).collect::<Vec<_>>(),
-            "observer": self.observer.iter().map(|g| format!("{g:?}")).collect::<Vec<_>>(),
+            "observer_bursts": self.observer.iter().map(|b| b.iter().map(|g| format!("{g:?}")).collect::<Vec<_>>()).collect::<Vec<_>>(),
             "setter": self.setter.iter().map(|s| format!("{s:?}")).collect::<Vec<_>>(),
         })
     }
 
-    pub fn n_ops(&self) -> usize {
-        self.ports.iter().flatten().map(|s| s.len()).sum::<usize>() + self.observer.len() + self.setter.len()
-    }
 }
 
 // ---------------------------------------------------------------- host side stubs
@@ -248,44 +250,59 @@ fn pause() {
 
 // ---------------------------------------------------------------- checks on what threads see
 
-fn check_parent(ctx: &ExecCtx, who: &str, inst: &Inst, script: &Script, last: &mut Vec<(usize, u16)>) {
+fn check_parent(ctx: &ExecCtx, who: &str, inst: &Inst, script: &Script, last: &mut Vec<(u64, usize, u16)>) {
     let p = inst.parent_ds();
     match gen::explain_parent(&p, script.max_local_j) {
         Ok(e) => {
-            ctx.count_snapshot("parent_ds");
+            ctx.count_snapshot(match e {
+                Expl::Gen(_) => "parent_ds/generation",
+                _ => "parent_ds/local",
+            });
             forward_only(ctx, who, "parent_ds", e, last);
         }
         Err(e) => violation("C17.torn_snapshot", &format!("parent_ds() seen by {who}: {e}; snapshot {p:?}")),
     }
 }
 
-fn check_time_properties(ctx: &ExecCtx, who: &str, inst: &Inst, last: &mut Vec<(usize, u16)>) {
+fn check_time_properties(ctx: &ExecCtx, who: &str, inst: &Inst, last: &mut Vec<(u64, usize, u16)>) {
     let t = inst.time_properties_ds();
     match gen::explain_time_properties(&t) {
         Ok(e) => {
-            ctx.count_snapshot("time_properties_ds");
+            ctx.count_snapshot(match e {
+                Expl::Gen(_) => "time_properties_ds/generation",
+                Expl::Init => "time_properties_ds/init",
+                _ => "time_properties_ds/local",
+            });
             forward_only(ctx, who, "time_properties_ds", e, last);
         }
         Err(e) => violation("C17.torn_snapshot", &format!("time_properties_ds() seen by {who}: {e}")),
     }
 }
 
-/// Oracle 4: per data set and per master, one observer never sees an older generation
-/// after a newer one (sequence ids only grow in the scripts).
-fn forward_only(_ctx: &ExecCtx, who: &str, ds: &str, e: Expl, last: &mut Vec<(usize, u16)>) {
+/// Oracle 4: as long as no BMCA ran in between, one observer never sees an older
+/// generation of the same master after a newer one (between two BMCA runs the only
+/// writer of these data sets is the Slave port, which receives its parent's Announces
+/// in order). Across a BMCA run the rule does NOT hold and is not demanded: statime
+/// drops the newest Announce of a master that lost the comparison from its foreign
+/// master list and may later select an older one of the same master (see README,
+/// corrections log).
+/// `last` = (BMCA epoch, master, k) of the previous snapshot.
+fn forward_only(ctx: &ExecCtx, who: &str, ds: &str, e: Expl, last: &mut Vec<(u64, usize, u16)>) {
+    let epoch = ctx.monitor().epoch_of_my_last_acquisition();
+    last.retain(|x| x.0 == epoch);
     if let Expl::Gen(k) = e {
         let m = gen::master_of(k).unwrap();
-        match last.iter_mut().find(|x| x.0 == m) {
+        match last.iter_mut().find(|x| x.1 == m) {
             Some(x) => {
-                if k < x.1 {
+                if k < x.2 {
                     violation(
                         "C17.generation_regressed",
-                        &format!("{ds} seen by {who} went back from k={} to k={k} of the same master", x.1),
+                        &format!("{ds} seen by {who} went back from k={} to k={k} of the same master with no BMCA run in between", x.2),
                     );
                 }
-                x.1 = k;
+                x.2 = k;
             }
-            None => last.push((m, k)),
+            None => last.push((epoch, m, k)),
         }
     }
 }
@@ -302,7 +319,8 @@ fn check_current(ctx: &ExecCtx, who: &str, inst: &Inst) {
 fn check_path_trace(ctx: &ExecCtx, who: &str, inst: &Inst) {
     let p = inst.path_trace_ds();
     match gen::explain_path_trace(&p.list) {
-        Ok(_) => ctx.count_snapshot("path_trace_ds"),
+        Ok(Some(_)) => ctx.count_snapshot("path_trace_ds/generation"),
+        Ok(None) => ctx.count_snapshot("path_trace_ds/empty"),
         Err(e) => violation("C17.torn_snapshot", &format!("path_trace_ds() seen by {who}: {e}")),
     }
 }
@@ -341,7 +359,8 @@ fn check_frame(ctx: &ExecCtx, script: &Script, port_no: usize, data: &[u8]) {
     ctx.count_frame();
     if fr.hdr.msg_type == wire::MsgType::Announce {
         match gen::explain_emitted_announce(&fr, script.max_local_j) {
-            Ok(_) => ctx.count_snapshot("emitted_announce"),
+            Ok(Expl::Gen(_)) => ctx.count_snapshot("emitted_announce/generation"),
+            Ok(_) => ctx.count_snapshot("emitted_announce/local"),
             Err(e) => violation(
                 "C17.torn_snapshot",
                 &format!("Announce emitted by port {port_no} (parent+current+time properties read in one with_ref): {e}"),
@@ -394,13 +413,27 @@ fn run_segment(ctx: &ExecCtx, script: &Script, p: usize, seg: usize, port: &mut 
 
 // ---------------------------------------------------------------- one execution
 
+/// Half of the executions use one of POOL fixed scripts, so that the same script is
+/// explored under many different schedules; the other half use a fresh script.
+pub const POOL: u64 = 32;
+pub fn is_pool_draw(r: u64) -> bool {
+    r & 1 == 0
+}
+pub fn workload_seed(r: u64) -> u64 {
+    if is_pool_draw(r) {
+        (r >> 1) % POOL
+    } else {
+        r
+    }
+}
+
 /// Runs inside a shuttle execution (root task).
 pub fn execute(ctx: Arc<ExecCtx>) {
-    let seed = shuttle::rand::thread_rng().next_u64();
+    let seed = workload_seed(shuttle::rand::thread_rng().next_u64());
     let script = Script::generate(seed);
     let mon = Arc::new(Monitor::default());
     crate::lock::install_monitor(mon.clone());
-    ctx.begin(&script);
+    ctx.begin(&script, mon.clone());
 
     let instance: Inst = PtpInstance::new(
         InstanceConfig {
@@ -469,17 +502,25 @@ pub fn execute(ctx: Arc<ExecCtx>) {
         }
 
         // observer (metrics/observation side)
+        let (tick_tx, tick_rx) = mpsc::channel::<()>();
         s.spawn(move || {
             let mut last_parent = Vec::new();
             let mut last_tp = Vec::new();
-            for g in &script_ref.observer {
-                pause();
-                match g {
-                    Get::Parent => check_parent(ctx_ref, "observer", inst, script_ref, &mut last_parent),
-                    Get::TimeProperties => check_time_properties(ctx_ref, "observer", inst, &mut last_tp),
-                    Get::Current => check_current(ctx_ref, "observer", inst),
-                    Get::PathTrace => check_path_trace(ctx_ref, "observer", inst),
-                    Get::Default => check_default(ctx_ref, "observer", inst, script_ref),
+            for burst in &script_ref.observer {
+                // released when the ports start their next segment, so that the reads
+                // spread over the whole run instead of all happening before the first BMCA
+                if tick_rx.recv().is_err() {
+                    break;
+                }
+                for g in burst {
+                    pause();
+                    match g {
+                        Get::Parent => check_parent(ctx_ref, "observer", inst, script_ref, &mut last_parent),
+                        Get::TimeProperties => check_time_properties(ctx_ref, "observer", inst, &mut last_tp),
+                        Get::Current => check_current(ctx_ref, "observer", inst),
+                        Get::PathTrace => check_path_trace(ctx_ref, "observer", inst),
+                        Get::Default => check_default(ctx_ref, "observer", inst, script_ref),
+                    }
                 }
             }
         });
@@ -498,9 +539,11 @@ pub fn execute(ctx: Arc<ExecCtx>) {
 
         // coordinator: run() of main.rs
         s.spawn(move || {
+            ctx_ref.monitor().i_am_coordinator();
             for (tx, port) in to_port.iter().zip(fresh) {
                 tx.send(port).expect("port thread alive");
             }
+            let _ = tick_tx.send(());
             let mut last_parent = Vec::new();
             let mut last_tp = Vec::new();
             for _round in 0..script_ref.rounds {
@@ -525,6 +568,7 @@ pub fn execute(ctx: Arc<ExecCtx>) {
                 for (port, tx) in ports.into_iter().zip(to_port.iter()) {
                     tx.send(port).expect("port thread alive");
                 }
+                let _ = tick_tx.send(());
             }
             // last segment runs, then the ports come back one final time
             for rx in &from_port {
